@@ -179,6 +179,29 @@ def case_mm_contracted_axis_right():
     return worst
 
 
+def case_linear_1d_input():
+    import optimum.quanto as q
+    torch.manual_seed(0)
+    w = q.quantize_weight(torch.randn(5, 1), q.qint8, 0)
+    x = _qa(torch.randn(1))
+    r = torch.nn.functional.linear(x, w)
+    ref = torch.nn.functional.linear(_deq(x), _deq(w))
+    return None if tuple(_deq(r).shape) == tuple(ref.shape) else f"linear with a 1-D input returns shape {tuple(_deq(r).shape)} instead of {tuple(ref.shape)}"
+
+
+def case_linear_noncontiguous_activations():
+    import optimum.quanto as q
+    torch.manual_seed(0)
+    x = _qa(torch.randn(1, 4, 3, 2)).permute(0, 2, 1, 3)
+    w = q.quantize_weight(torch.randn(6, 2), q.qint8, 0)
+    try:
+        r = torch.nn.functional.linear(x, w)
+    except Exception as e:  # noqa
+        return f"linear with non-contiguous quantized activations raises {exc_name(e)}"
+    ref = torch.nn.functional.linear(_deq(x), _deq(w))
+    return None if torch.allclose(_deq(r), ref, atol=1e-4) else "linear with non-contiguous activations differs"
+
+
 def case_linear_weight_last_axis():
     import optimum.quanto as q
     torch.manual_seed(0)
@@ -223,6 +246,8 @@ CASES = {
     "stack-three": case_stack_three,
     "split-sizes": case_split_sizes,
     "lt-float8": case_lt_float8,
+    "linear-1d-input": case_linear_1d_input,
+    "linear-noncontiguous-activations": case_linear_noncontiguous_activations,
     "mm-contracted-axis": case_mm_contracted_axis,
     "mm-contracted-axis-right": case_mm_contracted_axis_right,
     "linear-weight-last-axis": case_linear_weight_last_axis,
